@@ -250,10 +250,11 @@ class SymbolicExpression(Generic[T], ABC):
         if value is not None and hasattr(value, "_child_"):
             value._child_ = self
 
-    @cached_property
+    @property
     def _conditions_root_(self) -> SymbolicExpression:
         """
-        Get the root of the symbolic expression tree that contains conditions.
+        Get the root of the symbolic expression tree that contains conditions. Not cached: the same expression can be used
+        in a second query later, where it stands somewhere else in the tree.
         """
         conditions_root = self._root_
         while conditions_root._child_ is not None:
